@@ -28,7 +28,8 @@ CONSTANTS Clients,      \* tokens, e.g. {2, 3}
           NMeta,        \* metadata entries known before any client connects (frames -1..-NMeta)
           FrameLen,     \* bytes per frame
           SockCap,      \* socket buffer capacity in bytes
-          FixDoubleDec, FixUnbounded, FixWouldBlock
+          FixDoubleDec, FixUnbounded, FixWouldBlock,
+          CoalesceWake  \* witness only: wake-ups coalesced by a flag that the transport re-arms AFTER its receive loop
 
 None == <<>>
 MetaFrames == [i \in 1..NMeta |-> 0 - i]
@@ -39,7 +40,8 @@ Max(a, b) == IF a > b THEN a ELSE b
 VARIABLES
   started, crashed,
   chan, wakePending, shouldSend, clientCount,          \* shared between recorder handles and the transport
-  nextEmit,
+  nextEmit, epc,                                       \* next metric id; the emitter is between try_send and wake ("pushed")
+  coal,                                                \* (CoalesceWake only) the coalescing flag
   backlog, registered,                                 \* connected-not-yet-accepted / registered with the poller
   q, wbuf,                                             \* per client: message queue, rest of a partially written frame <<id, off>>
   stream, sockFree, peerOpen,                          \* per client: bytes put on the wire, free socket buffer space, peer still there
@@ -48,14 +50,14 @@ VARIABLES
   enq, drp,                                            \* [history] per client: every frame ever queued for it / frames discarded as oldest
   torn, lost                                           \* [history] a frame remainder / a whole frame was dropped on WouldBlock (CF11c)
 
-vars == <<started, crashed, chan, wakePending, shouldSend, clientCount, nextEmit, backlog, registered, q, wbuf,
+vars == <<epc, coal, started, crashed, chan, wakePending, shouldSend, clientCount, nextEmit, backlog, registered, q, wbuf,
           stream, sockFree, peerOpen, pc, buffered, fanLeft, toRemove, dtok, dphase, lastDrain, tot, enq, drp, torn, lost>>
 tvars == <<pc, buffered, fanLeft, toRemove, dtok, dphase, lastDrain>>
 
 Init ==
   /\ started = FALSE /\ crashed = FALSE
   /\ chan = <<>> /\ wakePending = FALSE /\ shouldSend = FALSE /\ clientCount = 0
-  /\ nextEmit = 1
+  /\ nextEmit = 1 /\ epc = "idle" /\ coal = FALSE
   /\ backlog = {} /\ registered = {}
   /\ q = [c \in Clients |-> <<>>] /\ wbuf = [c \in Clients |-> None]
   /\ stream = [c \in Clients |-> <<>>] /\ sockFree = [c \in Clients |-> SockCap] /\ peerOpen = [c \in Clients |-> FALSE]
@@ -71,32 +73,39 @@ Start ==
   /\ IF Unbounded /\ ~FixUnbounded
        THEN crashed' = TRUE /\ pc' = "dead" /\ UNCHANGED started     \* capacity overflow panic
        ELSE started' = TRUE /\ pc' = "poll" /\ UNCHANGED crashed
-  /\ UNCHANGED <<chan, wakePending, shouldSend, clientCount, nextEmit, backlog, registered, q, wbuf, stream, sockFree,
+  /\ UNCHANGED <<epc, coal, chan, wakePending, shouldSend, clientCount, nextEmit, backlog, registered, q, wbuf, stream, sockFree,
                  peerOpen, buffered, fanLeft, toRemove, dtok, dphase, lastDrain, tot, enq, drp, torn, lost>>
 
-(* recorder handle: push_metric                                            *)
-Emit ==
-  /\ nextEmit <= NEmit
+(* recorder handle: push_metric = gate read + try_send, then State::wake - two steps, the transport can run in between *)
+EmitPush ==
+  /\ epc = "idle" /\ nextEmit <= NEmit
   /\ nextEmit' = nextEmit + 1
   /\ IF shouldSend
        THEN /\ chan' = IF Unbounded \/ Len(chan) < Limit THEN Append(chan, nextEmit) ELSE chan   \* try_send
-            /\ wakePending' = TRUE
-       ELSE UNCHANGED <<chan, wakePending>>
-  /\ UNCHANGED <<started, crashed, shouldSend, clientCount, backlog, registered, q, wbuf, stream, sockFree, peerOpen, tvars, tot, enq, drp, torn, lost>>
+            /\ epc' = "pushed"
+       ELSE UNCHANGED <<chan, epc>>
+  /\ UNCHANGED <<coal, wakePending, started, crashed, shouldSend, clientCount, backlog, registered, q, wbuf, stream, sockFree, peerOpen, tvars, tot, enq, drp, torn, lost>>
+EmitWake ==
+  /\ epc = "pushed" /\ epc' = "idle"
+  /\ IF CoalesceWake
+       THEN coal' = TRUE /\ wakePending' = (wakePending \/ ~coal)     \* signal only if no wake-up is "still being handled"
+       ELSE wakePending' = TRUE /\ UNCHANGED coal                     \* Waker::wake, unconditionally
+  /\ UNCHANGED <<chan, nextEmit, started, crashed, shouldSend, clientCount, backlog, registered, q, wbuf, stream, sockFree, peerOpen, tvars, tot, enq, drp, torn, lost>>
+Emit == EmitPush \/ EmitWake
 
 (* remote peers                                                            *)
 Connect(c) ==
   /\ ~peerOpen[c] /\ c \notin registered /\ c \notin backlog /\ stream[c] = <<>>
   /\ peerOpen' = [peerOpen EXCEPT ![c] = TRUE] /\ backlog' = backlog \cup {c}
-  /\ UNCHANGED <<started, crashed, chan, wakePending, shouldSend, clientCount, nextEmit, registered, q, wbuf, stream, sockFree, tvars, tot, enq, drp, torn, lost>>
+  /\ UNCHANGED <<epc, coal, started, crashed, chan, wakePending, shouldSend, clientCount, nextEmit, registered, q, wbuf, stream, sockFree, tvars, tot, enq, drp, torn, lost>>
 ClientRead(c, n) ==
   /\ peerOpen[c] /\ n >= 1 /\ sockFree[c] + n <= SockCap
   /\ sockFree' = [sockFree EXCEPT ![c] = @ + n]
-  /\ UNCHANGED <<started, crashed, chan, wakePending, shouldSend, clientCount, nextEmit, backlog, registered, q, wbuf, stream, peerOpen, tvars, tot, enq, drp, torn, lost>>
+  /\ UNCHANGED <<epc, coal, started, crashed, chan, wakePending, shouldSend, clientCount, nextEmit, backlog, registered, q, wbuf, stream, peerOpen, tvars, tot, enq, drp, torn, lost>>
 ClientClose(c) ==
   /\ peerOpen[c] /\ c \in registered
   /\ peerOpen' = [peerOpen EXCEPT ![c] = FALSE]
-  /\ UNCHANGED <<started, crashed, chan, wakePending, shouldSend, clientCount, nextEmit, backlog, registered, q, wbuf, stream, sockFree, tvars, tot, enq, drp, torn, lost>>
+  /\ UNCHANGED <<epc, coal, started, crashed, chan, wakePending, shouldSend, clientCount, nextEmit, backlog, registered, q, wbuf, stream, sockFree, tvars, tot, enq, drp, torn, lost>>
 
 -----------------------------------------------------------------------------
 (* transport: event loop                                                   *)
@@ -110,42 +119,51 @@ Accept(c) ==
   /\ clientCount' = clientCount + 1 /\ shouldSend' = TRUE
   /\ q' = [q EXCEPT ![c] = MetaFrames] /\ wbuf' = [wbuf EXCEPT ![c] = None]
   /\ enq' = [enq EXCEPT ![c] = MetaFrames] /\ drp' = [drp EXCEPT ![c] = {}]
-  /\ UNCHANGED <<started, crashed, chan, wakePending, nextEmit, stream, sockFree, peerOpen, tvars, tot, torn, lost>>
+  /\ UNCHANGED <<epc, coal, started, crashed, chan, wakePending, nextEmit, stream, sockFree, peerOpen, tvars, tot, torn, lost>>
 
 \* WAKER
 WakeBegin ==
   /\ pc = "poll" /\ wakePending
   /\ wakePending' = FALSE /\ pc' = "rx"
-  /\ UNCHANGED <<started, crashed, chan, shouldSend, clientCount, nextEmit, backlog, registered, q, wbuf, stream, sockFree, peerOpen,
+  /\ UNCHANGED <<epc, coal, started, crashed, chan, shouldSend, clientCount, nextEmit, backlog, registered, q, wbuf, stream, sockFree, peerOpen,
                  buffered, fanLeft, toRemove, dtok, dphase, lastDrain, tot, enq, drp, torn, lost>>
 
 RxMetric ==
   /\ pc = "rx" /\ (Unbounded \/ Len(buffered) < Limit) /\ chan # <<>>
   /\ buffered' = Append(buffered, Head(chan)) /\ chan' = Tail(chan)
-  /\ UNCHANGED <<started, crashed, wakePending, shouldSend, clientCount, nextEmit, backlog, registered, q, wbuf, stream, sockFree, peerOpen,
+  /\ UNCHANGED <<epc, coal, started, crashed, wakePending, shouldSend, clientCount, nextEmit, backlog, registered, q, wbuf, stream, sockFree, peerOpen,
                  pc, fanLeft, toRemove, dtok, dphase, lastDrain, tot, enq, drp, torn, lost>>
 
-\* the receive loop ends: limit reached (schedules another wake) or channel drained
-RxEnd ==
+\* the receive loop ends: limit reached (schedules another wake) or channel seen empty ...
+RxSawEnd ==
   /\ pc = "rx" /\ (chan = <<>> \/ (~Unbounded /\ Len(buffered) >= Limit))
-  /\ wakePending' = (wakePending \/ (~Unbounded /\ Len(buffered) >= Limit))
+  /\ pc' = "rxe"
+  /\ IF ~Unbounded /\ Len(buffered) >= Limit
+       THEN wakePending' = TRUE /\ coal' = (IF CoalesceWake THEN TRUE ELSE coal)
+       ELSE UNCHANGED <<wakePending, coal>>
+  /\ UNCHANGED <<epc, started, crashed, chan, shouldSend, clientCount, nextEmit, backlog, registered, q, wbuf, stream, sockFree, peerOpen,
+                 buffered, fanLeft, toRemove, dtok, dphase, lastDrain, tot, enq, drp, torn, lost>>
+\* ... and (hook point tcp.rx.end.post) the transport goes on: fan out what it received, or back to poll
+RxEnd ==
+  /\ pc = "rxe"
+  /\ coal' = (IF CoalesceWake THEN FALSE ELSE coal)          \* the witness re-arms its flag only here
   /\ IF buffered = <<>> THEN pc' = "poll" /\ UNCHANGED <<fanLeft, toRemove>>
      ELSE pc' = "fan" /\ fanLeft' = registered /\ toRemove' = <<>>
-  /\ UNCHANGED <<started, crashed, chan, shouldSend, clientCount, nextEmit, backlog, registered, q, wbuf, stream, sockFree, peerOpen,
+  /\ UNCHANGED <<epc, wakePending, started, crashed, chan, shouldSend, clientCount, nextEmit, backlog, registered, q, wbuf, stream, sockFree, peerOpen,
                  buffered, dtok, dphase, lastDrain, tot, enq, drp, torn, lost>>
 
 \* fan-out: pick the next client (HashMap order), drive it first (phase 1)
 FanPick(c) ==
   /\ pc = "fan" /\ c \in fanLeft
   /\ pc' = "drive" /\ dtok' = c /\ dphase' = 1
-  /\ UNCHANGED <<started, crashed, chan, wakePending, shouldSend, clientCount, nextEmit, backlog, registered, q, wbuf, stream, sockFree,
+  /\ UNCHANGED <<epc, coal, started, crashed, chan, wakePending, shouldSend, clientCount, nextEmit, backlog, registered, q, wbuf, stream, sockFree,
                  peerOpen, buffered, fanLeft, toRemove, lastDrain, tot, enq, drp, torn, lost>>
 
 \* writable event on a client socket (phase 3)
 Writable(c) ==
   /\ pc = "poll" /\ c \in registered
   /\ pc' = "drive" /\ dtok' = c /\ dphase' = 3
-  /\ UNCHANGED <<started, crashed, chan, wakePending, shouldSend, clientCount, nextEmit, backlog, registered, q, wbuf, stream, sockFree,
+  /\ UNCHANGED <<epc, coal, started, crashed, chan, wakePending, shouldSend, clientCount, nextEmit, backlog, registered, q, wbuf, stream, sockFree,
                  peerOpen, buffered, fanLeft, toRemove, lastDrain, tot, enq, drp, torn, lost>>
 
 (* drive_connection: one loop iteration = take a buffer, one write() call  *)
@@ -185,7 +203,7 @@ EndDrive(done, qq) ==
 DriveIdle ==
   /\ pc = "drive" /\ NextBuf(dtok) = None
   /\ EndDrive(FALSE, q[dtok])
-  /\ UNCHANGED <<started, crashed, chan, wakePending, nextEmit, backlog, wbuf, stream, sockFree, peerOpen, buffered, dtok, tot, torn, lost>>
+  /\ UNCHANGED <<epc, coal, started, crashed, chan, wakePending, nextEmit, backlog, wbuf, stream, sockFree, peerOpen, buffered, dtok, tot, torn, lost>>
 
 \* one write() call with outcome o: "full" | "partial" (n bytes) | "block" (WouldBlock) | "err" (error or zero write)
 DriveWriteO(o, n) ==
@@ -211,7 +229,7 @@ DriveWriteO(o, n) ==
                /\ EndDrive(FALSE, qq) /\ UNCHANGED stream
           [] o = "err" ->
                /\ wbuf' = [wbuf EXCEPT ![c] = None] /\ EndDrive(TRUE, qq) /\ UNCHANGED <<stream, torn, lost>>
-  /\ UNCHANGED <<started, crashed, chan, wakePending, nextEmit, backlog, peerOpen, buffered, dtok, tot>>
+  /\ UNCHANGED <<epc, coal, started, crashed, chan, wakePending, nextEmit, backlog, peerOpen, buffered, dtok, tot>>
 
 \* the socket decides the outcome: closed peer -> error; no space -> WouldBlock; else min(remaining, free) bytes
 DriveWrite ==
@@ -240,23 +258,23 @@ FanDone ==
      \* decrement_clients clears the gate when the count it saw was 1 (with the early double decrement it can skip 1)
      /\ shouldSend' = IF r[2] < clientCount /\ clientCount >= 1 /\ r[2] <= 0 THEN FALSE ELSE shouldSend
   /\ toRemove' = <<>> /\ pc' = "poll"
-  /\ UNCHANGED <<started, crashed, chan, wakePending, nextEmit, backlog, q, wbuf, stream, sockFree, peerOpen, fanLeft, dtok, dphase, lastDrain, tot, enq, drp, torn, lost>>
+  /\ UNCHANGED <<epc, coal, started, crashed, chan, wakePending, nextEmit, backlog, q, wbuf, stream, sockFree, peerOpen, fanLeft, dtok, dphase, lastDrain, tot, enq, drp, torn, lost>>
 
 \* Variants used by trace validation only: what the recorder side did is not observable (the gate read and the
 \* try_send race with the transport), so an emission may or may not have reached the channel, and a wake-up needs
 \* no visible cause.
 EmitAny(id) ==
   /\ nextEmit' = id + 1 /\ chan' = Append(chan, id)
-  /\ UNCHANGED <<started, crashed, wakePending, shouldSend, clientCount, backlog, registered, q, wbuf, stream, sockFree, peerOpen, tvars, tot, enq, drp, torn, lost>>
+  /\ UNCHANGED <<epc, coal, started, crashed, wakePending, shouldSend, clientCount, backlog, registered, q, wbuf, stream, sockFree, peerOpen, tvars, tot, enq, drp, torn, lost>>
 WakeAny ==
   /\ pc = "poll" /\ wakePending' = FALSE /\ pc' = "rx"
-  /\ UNCHANGED <<started, crashed, chan, shouldSend, clientCount, nextEmit, backlog, registered, q, wbuf, stream, sockFree, peerOpen,
+  /\ UNCHANGED <<epc, coal, started, crashed, chan, shouldSend, clientCount, nextEmit, backlog, registered, q, wbuf, stream, sockFree, peerOpen,
                  buffered, fanLeft, toRemove, dtok, dphase, lastDrain, tot, enq, drp, torn, lost>>
 RxMetricId(id) ==
   /\ pc = "rx" /\ (Unbounded \/ Len(buffered) < Limit)
   /\ \E i \in DOMAIN chan : chan[i] = id /\ chan' = SubSeq(chan, i + 1, Len(chan))     \* FIFO: everything before it was not sent
   /\ buffered' = Append(buffered, id)
-  /\ UNCHANGED <<started, crashed, wakePending, shouldSend, clientCount, nextEmit, backlog, registered, q, wbuf, stream, sockFree, peerOpen,
+  /\ UNCHANGED <<epc, coal, started, crashed, wakePending, shouldSend, clientCount, nextEmit, backlog, registered, q, wbuf, stream, sockFree, peerOpen,
                  pc, fanLeft, toRemove, dtok, dphase, lastDrain, tot, enq, drp, torn, lost>>
 
 \* (trace validation) the receive loop ends; whether the channel was empty is not observable
@@ -265,19 +283,21 @@ RxEndAny ==
   /\ wakePending' = (wakePending \/ (~Unbounded /\ Len(buffered) >= Limit))
   /\ IF buffered = <<>> THEN pc' = "poll" /\ UNCHANGED <<fanLeft, toRemove>>
      ELSE pc' = "fan" /\ fanLeft' = registered /\ toRemove' = <<>>
-  /\ UNCHANGED <<started, crashed, chan, shouldSend, clientCount, nextEmit, backlog, registered, q, wbuf, stream, sockFree, peerOpen,
+  /\ UNCHANGED <<epc, coal, started, crashed, chan, shouldSend, clientCount, nextEmit, backlog, registered, q, wbuf, stream, sockFree, peerOpen,
                  buffered, dtok, dphase, lastDrain, tot, enq, drp, torn, lost>>
 
 
 Next ==
   \/ Start \/ Emit
   \/ \E c \in Clients : Connect(c) \/ ClientClose(c) \/ Accept(c) \/ FanPick(c) \/ Writable(c) \/ (\E n \in 1..SockCap : ClientRead(c, n))
-  \/ WakeBegin \/ RxMetric \/ RxEnd \/ DriveIdle \/ DriveWrite \/ FanDone
+  \/ WakeBegin \/ RxMetric \/ RxSawEnd \/ RxEnd \/ DriveIdle \/ DriveWrite \/ FanDone
 Spec == Init /\ [][Next]_vars
 \* liveness: the transport thread keeps running and a connected client keeps reading
-TransportStep == Start \/ WakeBegin \/ RxMetric \/ RxEnd \/ DriveIdle \/ DriveWrite \/ FanDone
+TransportStep == Start \/ WakeBegin \/ RxMetric \/ RxSawEnd \/ RxEnd \/ DriveIdle \/ DriveWrite \/ FanDone
                  \/ \E c \in Clients : Accept(c) \/ FanPick(c)
-FairSpec == Spec /\ WF_vars(TransportStep)
+\* (poll reports every ready source: a pending wake-up is handled although other events keep arriving - SF, it is only
+\* enabled between two rounds of the loop)
+FairSpec == Spec /\ WF_vars(TransportStep) /\ WF_vars(EmitWake) /\ SF_vars(WakeBegin)
                  /\ \A c \in Clients : SF_vars(Writable(c) /\ NextBuf(c) # None) /\ WF_vars(\E n \in 1..SockCap : ClientRead(c, n))
 
 -----------------------------------------------------------------------------
@@ -309,14 +329,19 @@ CountConsistent == pc = "poll" => (clientCount = Cardinality(registered) /\ (sho
 Started(c) == LET st == Starts(stream[c]) IN [i \in DOMAIN st |-> st[i][1]]
 PendingIds(c) == (IF wbuf[c] # None /\ wbuf[c][2] = 0 THEN <<wbuf[c][1]>> ELSE <<>>) \o q[c]
 QueueConservation ==
-  \A c \in Clients : (c \in registered /\ pc \in {"poll", "fan", "rx"} /\ ~lost
+  \A c \in Clients : (c \in registered /\ pc \in {"poll", "fan", "rx", "rxe"} /\ ~lost
                       /\ ~(\E i \in DOMAIN toRemove : toRemove[i] = c)) =>      \* not already found dead
       SelectSeq(enq[c], LAMBDA id : id \notin drp[c]) = Started(c) \o PendingIds(c)
 \* every frame queued for a client that stays connected is eventually on the wire (or was discarded as oldest)
 Delivery == \A c \in Clients : \A id \in FrameIds :
    ((\E i \in DOMAIN enq[c] : enq[c][i] = id) /\ c \in registered)
       ~> ((\E i \in DOMAIN Started(c) : Started(c)[i] = id) \/ id \in drp[c] \/ ~peerOpen[c] \/ c \notin registered)
+\* (liveness, FairSpec) whatever entered the channel is eventually taken out of it by the transport
+ChannelDrains == (chan # <<>>) ~> (chan = <<>>)
+\* no lost wake-up: whatever is in the channel while the transport sleeps in poll has a wake-up pending (or its emitter is
+\* about to signal one)
+NoStrandedMetric == (pc = "poll" /\ chan # <<>> /\ epc = "idle") => wakePending
 NoTornFrame == ~torn /\ ~lost
 StartsUp == ~crashed
-TypeOK == clientCount \in Int /\ pc \in {"boot", "dead", "poll", "rx", "fan", "drive"}
+TypeOK == clientCount \in Int /\ pc \in {"boot", "dead", "poll", "rx", "rxe", "fan", "drive"} /\ epc \in {"idle", "pushed"} /\ coal \in BOOLEAN
 =============================================================================
